@@ -22,6 +22,7 @@ def describe(ck):
     ck.rule("R13a", "detect_alphabet reads only msa->letter_freq (and the quiet flag) and writes only biotype / L; every writer of letter_freq adds to it or zeroes it")
     ck.rule("R13b", "the nucleotide model is seeded with A C G T U N in both cases, both models are case-closed and their loops cover the literals; only letters vote; each nucleotide letter weighs strictly more under the nucleotide model; the larger total selects the matching biotype")
     ck.rule("R13d", "the histogram is fed exactly the characters the readers classify as residues or gap symbols - not names or other text (= R04a)")
+    ck.rule("R13f", "kalign_run chooses the alphabet and tells aln_param_init the kind from msa->biotype only; the requested type does not flow into those tests")
     ck.rule("R13e", "msa.biotype is assigned a kind only by detect_alphabet; elsewhere it is only reset to UNDEF or copied from another msa")
     ck.rule("R13c", "the detected kind gates the alignment type (= R09b)")
     ck.not_decided += ["the quantitative premise 'at least a quarter protein-only letters => protein' (inequality between run-time weighted sums)"]
@@ -47,6 +48,7 @@ def r13a(ck, prog):
         ck.violation("R13a", "R13a/detect_alphabet/writes", site(prog, prog.fn("detect_alphabet")),
                      "detect_alphabet writes msa->%s" % sorted(writes - {"biotype", "L"}), prog.config)
     n = 0
+    zeroers = []
     for F in prog.lib_functions():
         for m in member_accesses(F.body, "msa", "letter_freq"):
             mode = access_mode(m)
@@ -65,6 +67,7 @@ def r13a(ck, prog):
                     ok = True
                 elif p.k == "BinaryOperator" and p.d["op"] == "=" and const_value(p.kids[1]) == 0:
                     ok = True
+                    zeroers.append((F, m))
                 elif p.k == "BinaryOperator" and p.d["op"] == "=":
                     r = p.kids[1].strip(casts=True)
                     if r.k == "BinaryOperator" and r.d["op"] == "+" and any(k.strip(casts=True).text() == p.kids[0].strip().text() for k in r.kids):
@@ -75,6 +78,79 @@ def r13a(ck, prog):
                              "%s changes the histogram by %s: counts must only be added (merging files must commute)" % (
                                  F.name, p.text()[:60] if p is not None else "?"), prog.config)
     ck.floor("R13a", n, 6, "histogram writers")
+    # the histogram is cleared only where the msa is created (or explicitly reset for re-use): a function that clears it and
+    # can run while a file is being read throws away what has been counted so far
+    from ..callgraph import CallGraph
+    from . import c05
+    ctor_names = {F_.name for F_, tgt, call in c05.constructors(prog).get("msa", [])}
+    cg = CallGraph(prog)
+    readers = cg.reachable({"read_fasta", "read_clu", "read_msf"})
+    for memsets in [(F, c) for F in prog.lib_functions() for c in F.body.calls("memset")
+                    if c.args and any(m_.d.get("field") == "letter_freq" and m_.d.get("rec") == "msa" for m_ in c.args[0].find("MemberExpr"))]:
+        zeroers.append(memsets)
+    for F, node in zeroers:
+        where = site(prog, node, "clear")
+        in_ctor = F.name in ctor_names
+        during_read = F.name in readers
+        ck.inst("R13a", where, "%s clears the histogram: %s%s" % (F.name, "creates the msa" if in_ctor else "does not create the msa",
+                                                                  "; reachable from the readers" if during_read else ""), prog.config)
+        if during_read and not in_ctor:
+            ck.violation("R13a", "R13a/%s/clears-while-reading" % F.name, where,
+                         "%s clears msa->letter_freq and is reachable from the readers (e.g. when the sequence array grows): the letters "
+                         "counted so far are forgotten and the kind is decided from the tail of the input only" % F.name, prog.config)
+
+
+def r13f(ck, prog):
+    """what kalign_run does with the detected kind: the tests that choose the alphabet (the stores to msa->L / the calls of
+    convert_msa_to_internal) and the biotype argument of aln_param_init depend on msa->biotype only - no local or parameter
+    that the requested type flows into (data or control dependence) takes its place"""
+    K = prog.fn("kalign_run")
+    tpar = {p_["did"] for p_ in K.params if p_["name"] == "type"}
+    if not tpar:
+        raise AnalysisBroken("R13f slot: kalign_run has no parameter named type")
+
+    def influenced(expr, seen=None, depth=0):
+        """does the requested type flow into expr?  follows locals through their definitions and the tests those sit under"""
+        seen = seen if seen is not None else set()
+        for r in expr.find("DeclRefExpr"):
+            if r.d.get("did") in tpar:
+                return True
+            if r.d.get("dk") == "Var" and not r.d.get("g") and r.d["did"] not in seen and depth < 4:
+                seen.add(r.d["did"])
+                for d_, nd in local_defs(K, r.d["did"]):
+                    if d_ is not None and influenced(d_, seen, depth + 1):
+                        return True
+                    for anc in nd.ancestors():
+                        c_ = anc.child("cond") if anc.k in ("IfStmt", "SwitchStmt") else None
+                        if c_ is not None and not nd.within(c_) and influenced(c_, seen, depth + 1):
+                            return True
+        return False
+    n = 0
+    sites = [a for a, l, r in stores_to_field(K.body, "msa", "L")] + list(K.body.calls("convert_msa_to_internal"))
+    for st in sites:
+        for cond, pol in guards(st):
+            if cond.parent is None or cond.parent.k != "IfStmt" or any(m_ in ("RUN", "RUNP") for m_ in cond.mac):
+                continue
+            n += 1
+            bad = influenced(cond)
+            ck.inst("R13f", site(prog, st, "alphabet choice"), "chosen under `%s`: %s" % (cond.text()[:40], "depends on the requested type" if bad else "detected kind only"), prog.config)
+            if bad:
+                ck.violation("R13f", "R13f/kalign_run/alphabet", site(prog, st, "alphabet choice"),
+                             "kalign_run chooses the alphabet under `%s`, into which the requested alignment type flows: an explicit "
+                             "--type can override the kind recognised from the residue letters instead of being checked against it" % cond.text()[:50], prog.config)
+    for c in K.body.calls("aln_param_init"):
+        P = prog.fn("aln_param_init")
+        bi = P.param_index("biotype")
+        if bi is not None and bi < len(c.args):
+            n += 1
+            a0 = c.args[bi].strip(casts=True)
+            okarg = a0.k == "MemberExpr" and a0.d.get("field") == "biotype" and a0.d.get("rec") == "msa"
+            ck.inst("R13f", site(prog, c, "biotype argument"), "aln_param_init(biotype = %s)" % a0.text(), prog.config)
+            if not okarg and influenced(c.args[bi]):
+                ck.violation("R13f", "R13f/kalign_run/param-biotype", site(prog, c, "biotype argument"),
+                             "aln_param_init is told the kind `%s`, which depends on the requested type, not the detected msa->biotype: the "
+                             "'detected X but --type Y' checks can no longer fire" % a0.text(), prog.config)
+    ck.floor("R13f", n, 3, "uses of the detected kind in kalign_run")
 
 
 def r13e(ck, prog):
@@ -458,6 +534,7 @@ def run(ck, progs):
         ck.attempt(r13a, ck, prog)
         ck.attempt(r13b, ck, prog)
         ck.attempt(r13e, ck, prog)
+        ck.attempt(r13f, ck, prog)
         from . import c04
         b0 = len(ck.instances)
         ck.attempt(c04.r04a, ck, prog)
